@@ -197,3 +197,91 @@ func PoisonStrings(t *rapid.T, text []byte, label string) []byte {
 	}
 	return append(out, text[at:]...)
 }
+
+// BadLiterals are scalar tokens that are almost JSON.
+var BadLiterals = []string{"-01", "01", "-00.5", "00", "1.", ".5", "-.5", "+1", "1e", "1e+", "-", "0x1", "1_000", "1e1.5", "Infinity", "NaN", "-0e", "0.e1",
+	"True", "tru", "nul", "NULL", "truee", "'a'", "\"\\x41\"", "\"\\u12\"", "\"\\u00\x11\x12\"", "\"\\uD83D\\\"", "\"\x01\"", "\"\t\"", "\"a\nb\"", "\"\\'\"", "\"\\a\"", "\"abc", "undefined", ""}
+
+// LexDamage replaces one scalar token of a JSON text (a member value or an
+// array element; strings, numbers and literals alike) by a token that is
+// almost JSON, or adds a trailing comma / trailing data / a byte-order mark.
+// The result is ill-formed by construction in nearly all cases (the callers'
+// oracles decide, not this function).
+func LexDamage(t *rapid.T, text []byte, label string) []byte {
+	// offsets where a value starts: after ':' '[' or ',' (outside strings), skipping whitespace
+	type span struct{ s, e int }
+	var vals []span
+	in := false
+	for i := 0; i < len(text); i++ {
+		c := text[i]
+		if in {
+			if c == '\\' {
+				i++
+			} else if c == '"' {
+				in = false
+			}
+			continue
+		}
+		if c == '"' {
+			in = true
+			continue
+		}
+		if c == ':' || c == '[' || c == ',' {
+			j := i + 1
+			for j < len(text) && (text[j] == ' ' || text[j] == '\t' || text[j] == '\n' || text[j] == '\r') {
+				j++
+			}
+			if j >= len(text) || text[j] == '{' || text[j] == '[' || text[j] == ']' || text[j] == '}' {
+				continue
+			}
+			k := j
+			if text[k] == '"' {
+				k++
+				for k < len(text) && text[k] != '"' {
+					if text[k] == '\\' {
+						k++
+					}
+					k++
+				}
+				k++
+				// an object member name is followed by ':' - leave names alone, they are not values
+				m := k
+				for m < len(text) && (text[m] == ' ' || text[m] == '\t' || text[m] == '\n' || text[m] == '\r') {
+					m++
+				}
+				if m < len(text) && text[m] == ':' {
+					continue
+				}
+			} else {
+				for k < len(text) && text[k] != ',' && text[k] != ']' && text[k] != '}' && text[k] != ' ' && text[k] != '\n' && text[k] != '\t' && text[k] != '\r' {
+					k++
+				}
+			}
+			if k > len(text) {
+				k = len(text)
+			}
+			vals = append(vals, span{j, k})
+		}
+	}
+	mode := Uniform(t, 0, 9, label+"mode")
+	if len(vals) == 0 && mode < 7 {
+		mode = 7
+	}
+	switch {
+	case mode < 7:
+		v := vals[Uniform(t, 0, len(vals)-1, label+"at")]
+		bad := rapid.SampledFrom(BadLiterals).Draw(t, label+"lit")
+		return append(append(append([]byte{}, text[:v.s]...), bad...), text[v.e:]...)
+	case mode == 7: // trailing comma before the last closer
+		for i := len(text) - 1; i >= 0; i-- {
+			if text[i] == ']' || text[i] == '}' {
+				return append(append(append([]byte{}, text[:i]...), ','), text[i:]...)
+			}
+		}
+		return append(append([]byte{}, text...), ',')
+	case mode == 8: // trailing data
+		return append(append([]byte{}, text...), rapid.SampledFrom([]string{" x", "]", "}", ",", "\x00", "[]", " null", "\v"}).Draw(t, label+"tr")...)
+	default: // leading junk
+		return append([]byte(rapid.SampledFrom([]string{"\ufeff", "\v", "\f", "\u00a0", "x", ")]}'\n", "//c\n"}).Draw(t, label+"lead")), text...)
+	}
+}
